@@ -278,6 +278,8 @@ func (w *World) enabled(op string) bool {
 		return len(w.Iters) < 1
 	case "iterS":
 		return len(w.Iters) < 1 && len(w.Snaps) > 0
+	case "titer":
+		return len(w.Iters) < 1 && w.Tr != nil
 	case "reliter":
 		return len(w.Iters) > 0
 	case "otr":
@@ -445,6 +447,10 @@ func (w *World) Apply(op string) {
 	case "iterS":
 		it := w.Snaps[0].s.NewIterator(nil, nil)
 		w.Iters = append(w.Iters, &iterView{it: it, m: w.Snaps[0].m.Sorted()})
+	case "titer":
+		// an iterator on the open transaction, held across later transaction writes
+		it := w.Tr.NewIterator(nil, nil)
+		w.Iters = append(w.Iters, &iterView{it: it, m: w.TrM.Sorted()})
 	case "reliter":
 		w.Iters[0].it.Release()
 		w.Iters = w.Iters[:0]
